@@ -57,3 +57,95 @@ pub fn sleep_wake_bars(seed: u64, flat: usize, level: f64) -> Vec<RawBar> {
     v
 }
 pub const SLEEP_LENS: [usize; 8] = [300, 645, 700, 1023, 1030, 1100, 4956, 5200];
+
+/// Streams built around a given window length n that force the cached-extreme bookkeeping through its
+/// rare paths at a chosen ring phase:
+///  pattern 0 — a spike at input `phase`, quiet values for n-1 inputs, then exactly n inputs later a value
+///              below the spike but above everything else (the evicted extreme is replaced by the value
+///              just written), repeated with slowly decaying spikes;
+///  pattern 1 — a non-decreasing run (with ties) of n+k inputs, then one value below the whole window;
+///  pattern 2, 3 — the mirror images (dips / non-increasing run then a value above the window).
+pub fn extreme_stress(n: usize, phase: usize, pattern: usize, seed: u64) -> Vec<f64> {
+    let mut st = seed;
+    let len = 4 * n + phase + 8;
+    let mut v = Vec::with_capacity(len);
+    match pattern % 4 {
+        0 | 2 => {
+            let mut spike = 1000.0;
+            for i in 0..len {
+                let u = crate::fw::unit(&mut st);
+                let x = if i >= phase && (i - phase) % n == 0 {
+                    spike *= 0.97;
+                    spike
+                } else {
+                    10.0 + u
+                };
+                v.push(if pattern % 4 == 0 { x } else { 2000.0 - x });
+            }
+        }
+        _ => {
+            let k = [0usize, 1, 5][phase % 3];
+            let mut x = 100.0;
+            let mut run = 0usize;
+            for _ in 0..len {
+                let u = crate::fw::unit(&mut st);
+                if run >= n + k {
+                    // one step below everything the window still holds
+                    x *= 0.5;
+                    run = 0;
+                } else {
+                    x += if u < 0.3 { 0.0 } else { 0.01 * u };
+                    run += 1;
+                }
+                v.push(if pattern % 4 == 1 { x } else { 1e6 - x });
+            }
+        }
+    }
+    v
+}
+
+/// first step (1-based, counted from the first flat bar) at which ATR(n) of `prefix` followed by identical
+/// flat bars at `level` is subnormal, simulated in plain f64 (used only to *place* inputs, never as an oracle)
+pub fn first_subnormal_atr_step(prefix: &[RawBar], level: f64, n: usize) -> usize {
+    let k = 2.0 / (n as f64 + 1.0);
+    let mut ema = 0.0f64;
+    let mut prev_close: Option<f64> = None;
+    let mut first = true;
+    let mut feed = |b: &RawBar, ema: &mut f64| {
+        let tr = match prev_close {
+            None => b.h - b.l,
+            Some(pc) => (b.h - b.l).max((b.h - pc).abs()).max((b.l - pc).abs()),
+        };
+        prev_close = Some(b.c);
+        if first {
+            first = false;
+            *ema = tr;
+        } else {
+            *ema = k * tr + (1.0 - k) * *ema;
+        }
+    };
+    for b in prefix {
+        feed(b, &mut ema);
+    }
+    let f = RawBar { o: level, h: level, l: level, c: level, v: 10.0 };
+    for s in 1..40_000usize {
+        feed(&f, &mut ema);
+        if ema < f64::MIN_POSITIVE {
+            return s;
+        }
+    }
+    40_000
+}
+
+/// sleep-and-wake stream whose wake-up bar falls `d` steps after the first subnormal ATR(n) step
+pub fn sleep_wake_at_subnormal(seed: u64, level: f64, n: usize, d: i64) -> Vec<RawBar> {
+    let mut g = crate::props::c13::Gen::new(seed, 0, level / 30.0, 5);
+    let mut v: Vec<RawBar> = (0..30).map(|_| g.bar()).collect();
+    let s = first_subnormal_atr_step(&v, level, n) as i64;
+    let flat = (s + d).max(1) as usize;
+    let f = RawBar { o: level, h: level, l: level, c: level, v: 10.0 };
+    v.extend((0..flat).map(|_| f));
+    v.extend((0..30).map(|_| g.bar()));
+    v
+}
+pub const WAKE_OFFSETS: [i64; 10] = [-2, -1, 0, 1, 2, 3, 10, 30, 51, 52];
